@@ -6,6 +6,7 @@ import (
 	"math/big"
 
 	"github.com/bnb-chain/tss-lib/v2/crypto"
+	"github.com/bnb-chain/tss-lib/v2/crypto/vss"
 	"github.com/bnb-chain/tss-lib/v2/eddsa/keygen"
 	"github.com/bnb-chain/tss-lib/v2/tss"
 	v "github.com/bnb-chain/tss-lib/v2/zzverifapi"
@@ -187,6 +188,7 @@ func verifC04(n, t, n2, t2, mode int) {
 		}
 	}
 	step := 0
+	forged, detected := false, false
 	drain()
 	for len(pending) > 0 {
 		i := 0
@@ -200,13 +202,32 @@ func verifC04(n, t, n2, t2, mode int) {
 		d := pending[i]
 		pending = append(pending[:i:i], pending[i+1:]...)
 		pm := net.Parse(d.msg)
+		if c3, ok := pm.Content().(*DGRound3Message1); ok && verifC04Adv >= 0 && !d.toOld && d.idx == 0 && d.msg.GetFrom().Index == verifC04Adv {
+			// the hostile old member hands new member 0 a share that is not on its committed polynomial
+			// (any other value; its commitments and every other message stay honest)
+			real := new(big.Int).SetBytes(c3.GetShare())
+			fake := v.NondetNat("fake_share")
+			v.Assume("fake-share-differs", !v.CongMod(fake, real, q))
+			v.Assume("fake-share-is-a-field-value", v.InRange(fake, big.NewInt(1), q))
+			pm = NewDGRound3Message1(newIDs[0], d.msg.GetFrom(), &vss.Share{Threshold: t2, ID: newKeys[0], Share: fake})
+			forged = true
+		}
 		var err *tss.Error
 		if d.toOld {
 			_, err = oldP[d.idx].Update(pm)
 		} else {
 			_, err = newP[d.idx].Update(pm)
 		}
-		v.Assert("no-update-errors", err == nil)
+		if verifC04Adv >= 0 {
+			if err != nil {
+				v.Assert("error-only-at-the-victim-after-the-forgery", forged && !d.toOld && d.idx == 0)
+				cs := err.Culprits()
+				v.Assert("exactly-the-hostile-member-is-blamed", len(cs) == 1 && cs[0].KeyInt().Cmp(oldKeys[verifC04Adv]) == 0)
+				detected = true
+			}
+		} else {
+			v.Assert("no-update-errors", err == nil)
+		}
 		// retire-last: at every point of the run, an erased old share implies all acks were sent
 		for j := 0; j < n; j++ {
 			erased := oldSaves[j].Xi.Sign() == 0
@@ -216,6 +237,18 @@ func verifC04(n, t, n2, t2, mode int) {
 		collect()
 	}
 	collect()
+	if verifC04Adv >= 0 {
+		v.Assert("forgery-was-delivered", forged)
+		v.Assert("wrong-share-detected-by-the-victim", detected)
+		for i := 0; i < n2; i++ {
+			v.Assert("no-new-member-emits-key-material", newSaves[i] == nil)
+		}
+		for j := 0; j < n; j++ {
+			v.Assert("no-old-share-erased", oldSaves[j].Xi.Sign() != 0)
+		}
+		v.Reach("end")
+		return
+	}
 	v.Assert("all-old-members-finish", oldEnded == n)
 	for j := 0; j < n; j++ {
 		v.Assert("old-share-erased-at-the-end", oldSaves[j].Xi.Sign() == 0)
@@ -263,3 +296,18 @@ func VerifHarness_C04_eddsa_reshare_2of2_to_2of2_fifo() { verifC04(2, 1, 2, 1, n
 func VerifHarness_C04_eddsa_reshare_2of2_to_2of2_lifo() { verifC04(2, 1, 2, 1, net.LIFO) }
 func VerifHarness_C04_eddsa_reshare_2of3_to_3of3_fifo() { verifC04(3, 1, 3, 2, net.FIFO) }
 func VerifHarness_C04_eddsa_reshare_3of3_to_2of2_fifo() { verifC04(3, 2, 2, 1, net.FIFO) }
+
+// C05 for resharing: old member verifC04Adv deviates by sending new member 0 a share that is
+// not on its committed polynomial (every value other than the right one). The victim must
+// detect it and blame exactly that old member; nobody emits new key material and no old
+// share is erased.
+var verifC04Adv = -1
+
+func VerifHarness_C05_eddsa_reshare_hostile_old_member_2to2() {
+	verifC04Adv = 1
+	verifC04(2, 1, 2, 1, net.FIFO)
+}
+func VerifHarness_C05_eddsa_reshare_hostile_old_member_3to3() {
+	verifC04Adv = 0
+	verifC04(3, 1, 3, 2, net.FIFO)
+}
